@@ -5,7 +5,7 @@ SPEC = {
     "translators": ["gen_prec", "gen_emit"],
     "bins": ["c02"],
     "model_targets": ["Cond/Check.vo"],
-    "proof_targets": ["Cond/SemProofs.vo", "Cond/RuleSetProofs.vo", "Cond/PrecProofs.vo", "Cond/QuirksProofs.vo", "Cond/MachineProofs.vo", "Cond/EmitProofs.vo"],
+    "proof_targets": ["Cond/SemProofs.vo", "Cond/RuleSetProofs.vo", "Cond/PrecProofs.vo", "Cond/QuirksProofs.vo", "Cond/MachineProofs.vo", "Cond/RunsProofs.vo", "Cond/EmitProofs.vo"],
     "assumptions": [
         "the meaning of conditions is the evaluator coq/Cond/Sem.v, hand-written from conditions.md / undefined_values.md / global_and_private.md; where these are silent it follows the implementation and says [undocumented] (64-bit wrap-around, truncated division, shift counts >= 64 / negative, P% = ceil(n*P/100), empty or undefined ranges make a for..in false, lexicographic string order, anchors of an `of` evaluated per item)",
         "floats, regular expressions (`matches`), modules, arrays/maps, .len(), int-as-bool casts, `bool == integer`, KB/MB suffixes, non-ASCII strings are not generated and not modelled",
@@ -13,8 +13,12 @@ SPEC = {
         "patterns are plain literal text patterns; their occurrences are computed by the model's own naive search (overlapping occurrences included), not taken from the implementation",
         "rule sets use consecutive blocks of distinct namespaces; conditions that make the implementation panic (WASM traps, property C05) are counted in the distribution and excluded",
         "the tie between Sem.v and the compiler/scanner is differential (K over generated rule sets), except for the operator binding powers, which are regenerated from parser/src/ast/cst2ast.rs and conditions.md on every run",
+        "architecture layer: for every generated rule the IR dumped by the compiler is compared node by node with Cond/IrTree.v (all rules), and the emitted WebAssembly instruction by instruction with Cond/Emit.v (rules whose folded condition is in the fragment `tyof`: no strings, no percentage quantifiers, no for..of / tuples, `of` only un-anchored over pattern sets); emit_correct is proved for the part of that fragment without for-loops (frag1: includes n-ary and/or, with, any/all/N of <set>) and evaluated on the machine for the for..in loops",
     ],
-    "trusted_base": ["harness/src/cond_gen.rs parse_ir: reads the text `impl Debug for IR` prints (kinds, attributes, indentation) and applies the two normalisations listed in Cond/IrTree.v",
+    "trusted_base": ["harness/src/wasm_read.rs: decoder of the WebAssembly binary written by Compiler::emit_wasm_file (unknown opcode = error); harness/src/bin/c02.rs rule_blocks / wasm_coq: finds every rule's block through the rule_match(<rule id>) call that follows it, resolves call targets and globals through the import section, keeps only the offset of a memarg and the arity of a block type",
+                     "hook lib/src/verif_c02.rs (Rules::verif_c02_pattern_ids): the PatternId of every declared pattern, which the emitted code uses instead of the position in the rule",
+                     "coq/Cond/Wasm.v op_bin / op_un / lower: WebAssembly opcode numbers, and the two expansions (field lookup, matching-rules bitmap byte) where Cond/Emit.v is more abstract than the emitted code",
+                     "harness/src/cond_gen.rs parse_ir: reads the text `impl Debug for IR` prints (kinds, attributes, indentation) and applies the two normalisations listed in Cond/IrTree.v",
                      "Gen/BindingPower.v, Gen/DocPrecedence.v: regenerated from parser/src/ast/cst2ast.rs (binding_power closure) and site/content/docs/writing_rules/conditions.md (operator table)",
                      "harness/src/cond_gen.rs: generator, YARA printer with minimal parentheses, Coq printer"],
 }
@@ -34,8 +38,10 @@ FINGERPRINTS = {
     9: "C02:emitted-code-model(Cond/Emit.v on Cond/Machine.v)-differs-from-documented-meaning",
     8: "C02:verdict-with-forced-pattern-search-differs-from-documented-meaning",
     10: "C02:IR-built-by-the-compiler-differs-from-predicted-tree(Cond/IrTree.v)",
+    11: "C02:emitted-WASM-differs-from-predicted-code(Cond/Emit.v,Cond/Wasm.v)",
 }
 KINDS = {
+    11: "the verdicts agree with the documented meaning and the IR is the predicted one, but the code decoded from the module Compiler::emit_wasm_file wrote is not, instruction by instruction, the code Cond/Emit.v predicts for the rule: emit.rs and its model have drifted apart; compare `Eval vm_compute in snd (canon [] (predicted (emitted_cond <pattern ids> <cond>)))` with the rule's entry of c_wasm in the replay's `coq` field",
     9: "the verdicts agree with the documented meaning, but the model of the emitted code (Cond/Emit.v on Cond/Machine.v) computes another verdict: emit.rs and its model have drifted apart",
     10: "the verdicts agree with the documented meaning, but the IR dumped by Compiler::set_ir_writer is not the tree Cond/IrTree.v predicts (typing of identifiers, constant folding, slot allocation): ast2ir.rs / ir/mod.rs and their model have drifted apart; compare `ir_dump` in the replay with `Eval vm_compute in ir_of <cond>`",
 }
@@ -47,7 +53,7 @@ def explain_batch(drv, casedir, cases):
     for k in range(0, len(cases), 40):
         chunk = cases[k:k + 40]
         name = f"TmpExplain{k}"
-        src = ("From Coq Require Import List NArith ZArith Bool.\nFrom YV Require Import Cond.Syntax Cond.Sem Cond.RuleSet Cond.IrTree Cond.Check.\n"
+        src = ("From Coq Require Import List NArith ZArith Bool.\nFrom YV Require Import Cond.Syntax Cond.Sem Cond.RuleSet Cond.IrTree Cond.Wasm Cond.Check.\n"
                "Import ListNotations.\nOpen Scope Z_scope.\nDefinition cs := [\n" + ";\n".join("(" + c["coq"] + ")" for c in chunk) +
                "\n].\nEval vm_compute in (map explain cs).\n"
                "Eval vm_compute in (map (fun c => eval_ruleset (c_data c) (c_globals c) (c_rules c)) cs).\n")
